@@ -1,7 +1,7 @@
 (* C18 -- Actions are well-formed value objects
    Property theorems only: each proof is one application of a lemma proved in Proofs/, followed by Print Assumptions. *)
 From Coq Require Import ZArith List Bool.
-From CS Require Repr Ops RevConv RevBridge4 RevolveRun DiskRun OnlineWF HRevRun.
+From CS Require Repr Ops RevConv RevBridge4 RevolveRun DiskRun OnlineWF HRevRun HRevTop.
 From CS Require Import Actions NAdvance Multistage Exec Sched RunFacts Projections BasicInv MultistageRun AllocTotal TLBridge MixBridge.
 Import ListNotations.
 Open Scope Z_scope.
@@ -86,14 +86,13 @@ Proof.
 Qed.
 Print Assumptions C18_periodic_disk_revolve.
 
-(* HRevolve (two levels): every N, every RAM count >= 1, any disk count and cost vector for which the constructor returns (its
-   dynamic program is not proved total); budgets RAM = snapshots_in_ram, DISK unbounded (the DISK budget itself: C03_hrevolve_refuted).
-   As for DiskRevolve the only verdict other than "no error" is E_leftover at the final EndReverse (D8) *)
-Theorem C18_hrevolve : forall (N ram disk uf ub wd rd : Z) (L : list Ops.op) (k : nat), 1 <= N -> 1 <= ram ->
-  RevConv.sequence RevConv.KHRevolve N ram disk uf ub wd rd = Ok L ->
+(* HRevolve (two levels): every N, every RAM count >= 1, every disk count >= 0, every cost vector (the constructor's dynamic
+   program and recursion are proved total: HRevTotal); budgets RAM = snapshots_in_ram, DISK unbounded (the DISK budget itself:
+   C03_hrevolve_refuted).  As for DiskRevolve the only verdict other than "no error" is E_leftover at the final EndReverse (D8) *)
+Theorem C18_hrevolve : forall (N ram disk uf ub wd rd : Z) (k : nat), 1 <= N -> 1 <= ram -> 0 <= disk ->
   exists o0 m ls, run_case (PRev RevConv.KHRevolve N ram disk uf ub wd rd) (DiskRun.disk_xparams N ram) (repeat Next k) = Ok (o0, m, ls) /\ no_err err_C18 m /\ no_raise ls.
 Proof.
-  intros N ram disk uf ub wd rd L k H1 H2 HL. destruct (HRevRun.hrevolve_run N ram disk uf ub wd rd L k H1 H2 HL) as (o0 & m & ls & E & Hl & Hm).
+  intros N ram disk uf ub wd rd k H1 H2 H3. destruct (HRevTop.hrevolve_run_total N ram disk uf ub wd rd k H1 H2 H3) as (o0 & m & ls & E & Hl & Hm).
   exists o0, m, ls. split; [exact E|]. split; [apply (DiskRun.leftover_no_err _ m Hm); intros []|exact Hl].
 Qed.
 Print Assumptions C18_hrevolve.
